@@ -85,6 +85,28 @@
                              parsed key verifies under the parsed key's own GetPublic(), crossok = it
                              verifies under the ORIGINAL public key
 
+   20 book <prdom> <prcodec> nkeys {key row}* nseals {seal row}* nkd {kt <kd> kdec}* nops {op}*
+                             a HISTORY of one address book (book 0 pstoremem, 1 pstoreds with
+                             CacheSize 0, 2 pstoreds with a cache); prdom / prcodec =
+                             peer.PeerRecordEnvelopeDomain / PeerRecordEnvelopePayloadType as read
+                             from the code; key and seal rows as in kind 6; the kd table holds the
+                             key-type specific unmarshaller's answer (kdec as in kind 6) for every
+                             (key type, key data) that occurs in a byte string of the history.  Ops:
+                             1 <env> res <asigner> <apt> <apl> <aid> prres <recid>
+                               ConsumeEnvelope(env, prdom) (res, acc_* as in kind 6) and, when it
+                               returned a PeerRecord, book.ConsumePeerRecord: prres 0 not attempted,
+                               1 stored, 2 "signing key does not match", 3 refused otherwise (older
+                               than the stored record); recid = the record's PeerID
+                             2 <p> ok <gsigner> <gpt> <gpl> <gid> reval
+                               book.GetPeerRecord(p): ok = 1 iff an envelope came back; then its
+                               MarshalPublicKey(PublicKey), PayloadType, RawPayload,
+                               IDFromPublicKey(PublicKey); reval = 1 iff its Marshal() passes
+                               ConsumeEnvelope(.., prdom) again (informational)
+                             3 <p> <raw>   the harness overwrites CertifiedRecord.Raw of p's
+                               datastore entry with raw (nothing happens when p has no entry)
+                             4             restart: the book is closed and a new one opened over
+                               the same datastore
+
    Kind 6 in detail.  The key table lists every key of the case (canon =
    MarshalPublicKey(pk), goid = IDFromPublicKey(pk) as computed by Go), the seal
    table every signature value issued in the case: Sign(key kidx,
@@ -111,6 +133,9 @@
    that can be generated ([MinRsaKeyBits, maxRsaKeyBits]) unmarshals and round-trips.
    kind 19: a key reported equal to sk is interchangeable with sk; every accepted
    private key signs for its own public key; the untouched blob round-trips.
+   kind 20: every ConsumeEnvelope / ConsumePeerRecord step as in kind 6 (domain asked =
+   prdom); every envelope GetPeerRecord hands out has exactly the (signer, prdom, payload
+   type, payload) of some seal event - whatever was done to the stored bytes in between.
    kind 7: verified => the signer's key and the signed message;
    the untouched triple verifies.  kind 5: the round trips.  kinds 3/4:
    reading the pre-image back gives exactly the triple; equal pre-images only
@@ -388,6 +413,207 @@ Fixpoint get_comps (n : nat) (l : list Z) : option (list (N * bytes) * list Z) :
       Some ((Z.to_N code, v) :: cs, r2)
   end.
 
+(* ---- kind 20: a history of one address book --------------------------------------- *)
+Inductive op20 :=
+| Op20Consume (env : bytes) (res : Z) (asigner apt apl aid : bytes) (prres : Z) (recid : bytes)
+| Op20Get (p : bytes) (ok : Z) (gsigner gpt gpl gid : bytes) (reval : Z)
+| Op20Edit (p raw : bytes)
+| Op20Reopen.
+
+Record case20 := mkCase20 {
+  h_book : Z; h_prdom : bytes; h_prcodec : bytes;
+  h_keys : list keyrow; h_seals : list sealrow;
+  h_kd : list (N * bytes * Z); h_ops : list op20 }.
+
+Fixpoint get_kds (n : nat) (l : list Z) : option (list (N * bytes * Z) * list Z) :=
+  match n with
+  | O => Some ([], l)
+  | S n' =>
+      do (kt, r0) <- get_z l; do (kd, r1) <- get_bytes r0; do (a, r2) <- get_z r1;
+      do (ks, r3) <- get_kds n' r2;
+      Some ((Z.to_N kt, kd, a) :: ks, r3)
+  end.
+
+Fixpoint get_ops20 (n : nat) (l : list Z) : option (list op20 * list Z) :=
+  match n with
+  | O => Some ([], l)
+  | S n' =>
+      do (tag, r0) <- get_z l;
+      do (o, r) <-
+        (if tag =? 1 then
+           do (env, r1) <- get_bytes r0; do (res, r2) <- get_z r1;
+           do (asg, r3) <- get_bytes r2; do (apt, r4) <- get_bytes r3; do (apl, r5) <- get_bytes r4;
+           do (aid, r6) <- get_bytes r5; do (prres, r7) <- get_z r6; do (recid, r8) <- get_bytes r7;
+           Some (Op20Consume env res asg apt apl aid prres recid, r8)
+         else if tag =? 2 then
+           do (p, r1) <- get_bytes r0; do (ok, r2) <- get_z r1;
+           do (gs, r3) <- get_bytes r2; do (gpt, r4) <- get_bytes r3; do (gpl, r5) <- get_bytes r4;
+           do (gid, r6) <- get_bytes r5; do (rv, r7) <- get_z r6;
+           Some (Op20Get p ok gs gpt gpl gid rv, r7)
+         else if tag =? 3 then
+           do (p, r1) <- get_bytes r0; do (raw, r2) <- get_bytes r1; Some (Op20Edit p raw, r2)
+         else if tag =? 4 then Some (Op20Reopen, r0)
+         else None);
+      do (os, r') <- get_ops20 n' r;
+      Some (o :: os, r')
+  end.
+
+Definition decode20 (l : list Z) : option case20 :=
+  do (bk, r0) <- get_z l;
+  do (prdom, r1) <- get_bytes r0; do (prcodec, r2) <- get_bytes r1;
+  do (nk, r3) <- get_z r2;
+  if negb (small_count nk) then None else
+  do (keys, r4) <- get_keys (Z.to_nat nk) r3;
+  do (ns, r5) <- get_z r4;
+  if negb (small_count ns) then None else
+  do (seals, r6) <- get_seals (Z.to_nat ns) r5;
+  do (nd, r7) <- get_z r6;
+  if negb (small_count nd) then None else
+  do (kds, r8) <- get_kds (Z.to_nat nd) r7;
+  do (no, r9) <- get_z r8;
+  if negb (small_count no) then None else
+  do (ops, r10) <- get_ops20 (Z.to_nat no) r9;
+  match r10 with
+  | [] => Some (mkCase20 bk prdom prcodec keys seals kds ops)
+  | _ => None
+  end.
+
+(* the key decoder of a history: the recorded answers *)
+Fixpoint table_key_dec (kds : list (N * bytes * Z)) (kt : N) (kd : bytes) : option Z :=
+  match kds with
+  | [] => None
+  | (t, d, a) :: r =>
+      if N.eqb t kt && beq d kd
+      then (if (a =? -2) || (0 <=? a) then Some a else None)
+      else table_key_dec r kt kd
+  end.
+
+Definition key_goid (keys : list keyrow) (k : Z) : bytes :=
+  match key_at keys k with Some kr => k_goid kr | None => [] end.
+Definition key_canon (keys : list keyrow) (k : Z) : bytes :=
+  match key_at keys k with Some kr => k_canon kr | None => [] end.
+Definition key_proto_of (keys : list keyrow) (k : Z) : N * bytes :=
+  match key_at keys k with Some kr => (k_kt kr, k_raw kr) | None => (0%N, []) end.
+
+(* some seal event has exactly this (signer, domain, payload type, payload); the signer is
+   named by its canonical marshalled key and its ID *)
+Definition sealed_content (keys : list keyrow) (seals : list sealrow)
+           (signer sid dom pt pl : bytes) : bool :=
+  existsb (fun sl =>
+             match key_at keys (s_kidx sl) with
+             | Some kr => beq (k_canon kr) signer && beq (k_goid kr) sid
+             | None => false
+             end
+             && beq (s_dom sl) dom && beq (s_pt sl) pt && beq (s_pl sl) pl)
+          seals.
+
+Definition signer_has_id (keys : list keyrow) (signer rid : bytes) : bool :=
+  existsb (fun kr => beq (k_canon kr) signer && beq (k_goid kr) rid) keys.
+
+(* THE MONITOR of a history: judged from the observations and the seal events only *)
+Definition monitor_op20 (keys : list keyrow) (seals : list sealrow) (prdom : bytes) (o : op20) : list Z :=
+  match o with
+  | Op20Consume _ res asg apt apl aid prres recid =>
+      first_fail
+        [ (negb (res =? 1) || sealed_content keys seals asg aid prdom apt apl, 201);
+          (negb (prres =? 1) || ((res =? 1) && signer_has_id keys asg recid), 202) ] viol
+  | Op20Get _ ok gs gpt gpl gid _ =>
+      (* what a peerstore hands out as a peer's signed record is what its signer sealed *)
+      first_fail [ (negb (ok =? 1) || sealed_content keys seals gs gid prdom gpt gpl, 203) ] viol
+  | _ => []
+  end.
+
+Fixpoint monitor_ops20 (keys : list keyrow) (seals : list sealrow) (prdom : bytes) (ops : list op20) : list Z :=
+  match ops with
+  | [] => []
+  | o :: r =>
+      match monitor_op20 keys seals prdom o with
+      | [] => monitor_ops20 keys seals prdom r
+      | d => d
+      end
+  end.
+
+Definition monitor20 (c : case20) : list Z := monitor_ops20 (h_keys c) (h_seals c) (h_prdom c) (h_ops c).
+
+(* conformance: the model's book replays the history.  [None] = stop comparing (a signature
+   value never issued was accepted by the real scheme: the ideal scheme has no prediction) *)
+Section Conform20.
+  Variable keys : list keyrow.
+  Variable seals : list sealrow.
+  Variable kds : list (N * bytes * Z).
+  Variables prdom prcodec : bytes.
+
+  Notation KD := (table_key_dec kds).
+  Notation VF := (table_verify seals).
+  Definition m_get := ps_get Z KD VF prdom prcodec.
+  Definition m_consume := ps_consume Z KD VF (key_goid keys) (key_proto_of keys) prdom prcodec.
+
+  Definition acc_is (k : Z) (pt pl : bytes) (signer sid opt opl : bytes) : bool :=
+    beq pt opt && beq pl opl &&
+    match key_at keys k with
+    | Some kr => beq (k_canon kr) signer && beq (k_goid kr) sid
+    | None => k =? -2
+    end.
+
+  Definition unknown_sig (b : bytes) : bool :=
+    match unmarshal_envelope Z KD b with
+    | Some (_, e) => negb (sig_known seals (e_sg e))
+    | None => false
+    end.
+
+  Definition conform_op20 (o : op20) (b : book) : option (list Z * book) :=
+    match o with
+    | Op20Consume env res asg apt apl aid prres recid =>
+        let '((r, pr, rid), b') := m_consume env b in
+        match r with
+        | CBadEnvelope => Some (if (res =? 0) && (prres =? 0) then [] else mism 204, b')
+        | CBadSignature =>
+            if unknown_sig env && negb (res =? 2) then None
+            else Some (if (res =? 2) && (prres =? 0) then [] else mism 205, b')
+        | CAccept k pt pl =>
+            if N.eqb pr 0 then Some (if ((res =? 3) || ((res =? 1) && acc_is k pt pl asg aid apt apl)) && (prres =? 0) then [] else mism 206, b')
+            else Some (if (res =? 1) && acc_is k pt pl asg aid apt apl && (prres =? Z.of_N pr) && beq rid recid
+                       then [] else mism 207, b')
+        end
+    | Op20Get p ok gs gpt gpl gid _ =>
+        let '(g, b') := m_get p b in
+        match g with
+        | Some (k, pt, pl) => Some (if (ok =? 1) && acc_is k pt pl gs gid gpt gpl then [] else mism 208, b')
+        | None =>
+            if ok =? 0 then Some ([], b')
+            else
+              match fst (ps_load p b) with
+              | Some (_, raw) => if unknown_sig raw then None else Some (mism 209, b')
+              | None => Some (mism 209, b')
+              end
+        end
+    | Op20Edit p raw => Some ([], ps_edit p raw b)
+    | Op20Reopen => Some ([], ps_reopen b)
+    end.
+
+  Fixpoint conform_ops20 (ops : list op20) (b : book) : list Z :=
+    match ops with
+    | [] => []
+    | o :: r =>
+        match conform_op20 o b with
+        | None => []
+        | Some ([], b') => conform_ops20 r b'
+        | Some (d, _) => d
+        end
+    end.
+End Conform20.
+
+Definition conform20 (c : case20) : list Z :=
+  let keys_ok :=
+    forallb (fun k => beq (marshal_pubkey (k_kt k) (k_raw k)) (k_canon k)
+                      && beq (id_of_key max_inline (k_canon k) (k_digest k)) (k_goid k)) (h_keys c) in
+  let seals_ok :=
+    forallb (fun sl => match key_at (h_keys c) (s_kidx sl) with Some _ => true | None => false end)
+            (h_seals c) in
+  if negb keys_ok then mism 200 else if negb seals_ok then mism 199 else
+  conform_ops20 (h_keys c) (h_seals c) (h_kd c) (h_prdom c) (h_prcodec c) (h_ops c)
+                (mkBook (h_book c =? 2) [] []).
+
 (* ---- the two entry points ------------------------------------------------------ *)
 Definition conform_case (l : list Z) : list Z :=
   match l with
@@ -606,6 +832,11 @@ Definition conform_case (l : list Z) : list Z :=
           end
       | None => malformed 17
       end
+  | 20 :: r =>
+      match decode20 r with
+      | Some c => conform20 c
+      | None => malformed 20
+      end
   | _ => malformed 0
   end.
 
@@ -772,6 +1003,11 @@ Definition monitor_case (l : list Z) : list Z :=
             end
           else []
       | None => malformed 17
+      end
+  | 20 :: r =>
+      match decode20 r with
+      | Some c => monitor20 c
+      | None => malformed 20
       end
   | _ => malformed 0
   end.
